@@ -19,6 +19,7 @@
 #include "llvm/Analysis/CGSCCPassManager.h"
 #include "llvm/Demangle/Demangle.h"
 #include <algorithm>
+#include <functional>
 #include <map>
 #include <set>
 #include <sstream>
@@ -384,16 +385,29 @@ static std::map<const BasicBlock *, std::pair<int, const Loop *>> loopHeader; //
 static std::vector<std::pair<std::string, int>> boundSpec; static int boundDefault = 8;
 struct LoopMeta { int id; std::string func, linkage; unsigned line; int bound; };
 static std::vector<LoopMeta> loopMetas;
+// Attribute a loop to the source function whose text contains the loop statement: the deepest inlined frame that
+// contains every instruction of the loop; line = smallest line the loop touches in that frame.
 static int loopBound(const Loop *L, std::string &who) {
     who = "?"; std::string linkage; unsigned line = 0;
-    const Instruction *pick = nullptr;
-    // the loop's condition branch: header terminator if it leaves the loop, else the latch terminator, else any located instruction of the header
-    auto exits = [&](const BasicBlock *B) { const Instruction *T = B->getTerminator(); for (unsigned k = 0; k < T->getNumSuccessors(); ++k) if (!L->contains(T->getSuccessor(k))) return true; return false; };
-    if (exits(L->getHeader()) && L->getHeader()->getTerminator()->getDebugLoc()) pick = L->getHeader()->getTerminator();
-    if (!pick) if (BasicBlock *La = L->getLoopLatch()) if (La->getTerminator()->getDebugLoc()) pick = La->getTerminator();
-    if (!pick) for (Instruction &I : *L->getHeader()) if (I.getDebugLoc()) { pick = &I; break; }
-    if (!pick) for (BasicBlock *B : L->blocks()) { for (Instruction &I : *B) if (I.getDebugLoc()) { pick = &I; break; } if (pick) break; }
-    if (pick) { const DebugLoc &D = pick->getDebugLoc(); line = D.getLine(); if (auto *SP = cast<DILocalScope>(D.getScope())->getSubprogram()) { who = SP->getName().str(); linkage = SP->getLinkageName().str(); } }
+    std::vector<const DILocation *> common; bool have = false; // chain of inlined-at call sites, outermost first
+    std::vector<std::vector<const DILocation *>> chains; std::vector<const DILocation *> locs;
+    for (BasicBlock *B : L->blocks()) for (Instruction &I : *B) {
+        const DILocation *D = I.getDebugLoc().get(); if (!D) continue;
+        std::vector<const DILocation *> ch; for (const DILocation *P = D->getInlinedAt(); P; P = P->getInlinedAt()) ch.push_back(P);
+        std::reverse(ch.begin(), ch.end());
+        chains.push_back(ch); locs.push_back(D);
+        if (!have) { common = ch; have = true; }
+        else { size_t k = 0; while (k < common.size() && k < ch.size() && common[k] == ch[k]) ++k; common.resize(k); }
+    }
+    if (have) {
+        size_t d = common.size(); unsigned best = 0; const DISubprogram *SP = nullptr;
+        for (size_t q = 0; q < chains.size(); ++q) {
+            const DILocation *inFrame = chains[q].size() == d ? locs[q] : chains[q][d]; // the location inside the owning frame
+            if (!SP) SP = inFrame->getScope()->getSubprogram();
+            unsigned ln = inFrame->getLine(); if (ln && (!best || ln < best)) best = ln;
+        }
+        line = best; if (SP) { who = SP->getName().str(); linkage = SP->getLinkageName().str(); }
+    }
     std::string key = who + ":" + std::to_string(line) + "@" + linkage;
     int bd = boundDefault;
     for (auto &kv : boundSpec) if (key.find(kv.first) != std::string::npos) { bd = kv.second; break; }
@@ -442,8 +456,42 @@ static std::string blockLabel(FnCtx &X, BasicBlock *B) { return "L" + rawName(X,
 
 static void gotoBlock(FnCtx &X, BasicBlock *from, BasicBlock *to, raw_ostream &O) {
     emitPhiMoves(X, from, to, O);
-    { auto it = loopHeader.find(to); if (it != loopHeader.end() && !it->second.second->contains(from)) O << "    lc" << it->second.first << " = 0;\n"; }
+    auto it = loopHeader.find(to);
+    if (it != loopHeader.end() && it->second.second->contains(from)) { O << "    goto Llatch" << it->second.first << ";\n"; return; } // back edge: via the single latch placed after the loop body
+    if (it != loopHeader.end()) O << "    lc" << it->second.first << " = 0;\n";
     O << "    goto " << blockLabel(X, to) << ";\n";
+}
+
+// Block layout for CBMC: every loop is contiguous, blocks inside a region are in topological order (back edges ignored),
+// and each loop ends with one latch "Llatch: goto header". CBMC's symbolic execution walks instructions in program order and
+// parks the states of forward gotos at their targets, so every forward target must lie before the next backward jump.
+static void layoutRegion(Loop *L, LoopInfo &LI, Function &F, std::vector<std::pair<BasicBlock *, Loop *>> &out) {
+    // nodes: blocks directly in L (or in no loop when L is null) and the immediate sub-loops of L
+    auto nodeOf = [&](BasicBlock *B) -> std::pair<BasicBlock *, Loop *> {
+        Loop *BL = LI.getLoopFor(B);
+        if (BL == L) return {B, nullptr};
+        while (BL && BL->getParentLoop() != L) BL = BL->getParentLoop();
+        return {nullptr, BL};
+    };
+    auto inRegion = [&](BasicBlock *B) { return L ? L->contains(B) : true; };
+    typedef std::pair<BasicBlock *, Loop *> Node;
+    std::set<Node> visited; std::vector<Node> post;
+    std::function<void(Node)> dfs = [&](Node nd) {
+        if (!visited.insert(nd).second) return;
+        std::vector<BasicBlock *> members;
+        if (nd.first) members.push_back(nd.first); else for (BasicBlock *B : nd.second->blocks()) members.push_back(B);
+        std::vector<Node> succs;
+        for (BasicBlock *B : members) { Instruction *T = B->getTerminator(); for (unsigned k = 0; k < T->getNumSuccessors(); ++k) { BasicBlock *S = T->getSuccessor(k); if (!inRegion(S)) continue; if (L && S == L->getHeader()) continue; Node sn = nodeOf(S); if (sn == nd) continue; succs.push_back(sn); } }
+        // visit in reverse so that the first successor ends up first in reverse post-order
+        for (auto it = succs.rbegin(); it != succs.rend(); ++it) dfs(*it);
+        post.push_back(nd);
+    };
+    BasicBlock *entry = L ? L->getHeader() : &F.getEntryBlock();
+    dfs(nodeOf(entry));
+    for (auto it = post.rbegin(); it != post.rend(); ++it) {
+        if (it->first) out.push_back({it->first, nullptr});
+        else { layoutRegion(it->second, LI, F, out); out.push_back({nullptr, it->second}); }
+    }
 }
 
 static int tiId(const Value *V) {
@@ -515,7 +563,11 @@ static void emitFunction(Function &F, raw_ostream &O) {
         O << "    " << declare(I.getType(), rawName(X, &I)) << ";\n";
     }
     bool first = true;
-    for (BasicBlock &B : F) {
+    std::vector<std::pair<BasicBlock *, Loop *>> order;
+    layoutRegion(nullptr, LI, F, order);
+    for (auto &item : order) {
+        if (!item.first) { O << "  Llatch" << loopHeader[item.second->getHeader()].first << ":;\n    goto " << blockLabel(X, item.second->getHeader()) << ";\n"; continue; }
+        BasicBlock &B = *item.first;
         if (!first) O << "  " << blockLabel(X, &B) << ":;\n";
         first = false;
         { auto it = loopHeader.find(&B); if (it != loopHeader.end()) { std::string who; int bd = loopBound(it->second.second, who); loopMetas.push_back({it->second.first, who, "", 0, bd}); O << "    if (++lc" << it->second.first << " > " << bd << ") { __CPROVER_assert(0, \"unwinding bound " << bd << " of loop in " << who << "\"); __CPROVER_assume(0); goto L__cut; }\n"; } }
